@@ -41,6 +41,16 @@ class GObjP(GBase):
     __init__ = GObj.__init__
 
 
+class GObjNBase(GBase):
+    """its printer is registered BY NAME for this base class and never for the subclass below; no instance of
+    the base itself is ever printed, so the promotion happens through a subclass instance"""
+    __init__ = GObj.__init__
+
+
+class GObjN(GObjNBase):
+    pass
+
+
 class Marker:
     def __init__(self, text):
         self.text = text
@@ -64,6 +74,7 @@ def ensure_registered():
     def is_pred_obj(value):
         return type(value) is GObjP
 
+    @register_pretty(GObjNBase.__module__ + '.' + GObjNBase.__qualname__)
     @register_pretty(predicate=is_pred_obj)
     @register_pretty(GObj)
     def gobj_printer(value, ctx):
@@ -101,7 +112,8 @@ def build(heap):
         elif n[0] == 'dict':
             objs[i] = {}
         elif n[0] == 'user':
-            objs[i] = (GObjP if i % 3 == 0 else GObj)(n[1], i, n[2], n[4] if len(n) > 4 else 'ValueError')
+            objs[i] = (GObjP if i % 3 == 0 else GObjN if i % 3 == 1 else GObj)(
+                n[1], i, n[2], n[4] if len(n) > 4 else 'ValueError')
     for i, n in enumerate(heap):
         if n[0] == 'tuple':
             assert all(heap[r][0] != 'tuple' or r < i for r in n[1])
